@@ -65,6 +65,11 @@ def check_C16(chk):
                      {"expected_type": it["case"]["ty"], "bytes": it["case"]["bytes"].hex(), "attachments": it["case"]["atts"], "observed": it["rec"]["out"]})
     chk.assumptions += ["bincode/serde behaviour outside the 12 modelled types is not covered; what Rust drops on an error path is released by Drop (observed through "
                         "liveness probes, not modelled)"]
+    # undecodable messages inside whole-API programs (received directly, through a set, carrying endpoints and regions), against the Api model
+    from . import props_prog as PP
+    af, ab = PP.api_stage(chk, "C16", bins, ["default"], 400 if thorough else 45, 60, seed_off=51, p_poison=0.3)
+    fails = fails + [None] * af
+    bad = bad + [None] * ab
     finish_proof(chk, proof_ok, fails, bad)
 
 
